@@ -336,6 +336,19 @@ def run(check, repo: Repo) -> None:
                 check.decide(ok, "C09-R4", f"RNGMixin.{q}: the seed is tested with `is (not) None` (seed 0 is a seed)", unparse(t), rmod.line(n),
                              fail_detail=f"`{unparse(t)}` treats seed 0 like 'no seed': with seed 0 a reset does not reseed, so the same run "
                                          f"after a reset produces a different loss history")
+    # the stored seed is THE seed: _reset_rng() rebuilds the numpy generator from self._rng_seed, so whatever is stored must be what the first generator was built
+    # from.  Reducing it on the way into the attribute (seed % 2**32 is only right for torch's manual_seed, at the point of use) makes the run after a reset differ
+    # from the first run for every seed wider than 32 bits — including the entropy of an unseeded default_rng().
+    _, rcls = repo.cls(f"{RNG}:RNGMixin")
+    n_store = 0
+    for n in ast.walk(rcls):
+        if isinstance(n, ast.Assign) and any(dotted(t) == "self._rng_seed" for t in n.targets):
+            n_store += 1
+            reduced = [x for x in ast.walk(n.value) if isinstance(x, ast.BinOp) and isinstance(x.op, (ast.Mod, ast.BitAnd, ast.FloorDiv, ast.RShift, ast.LShift, ast.BitXor))]
+            check.decide(not reduced, "C09-R4", f"RNGMixin: `{unparse(n)[:50]}` stores the seed unreduced", "", rmod.line(n), definite=True,
+                         fail_detail=f"`{unparse(n)[:60]}` stores a reduced seed while the generator of the first run is built from the full one: after reset_recon the numpy "
+                                     f"generator is rebuilt from the reduced value — a different shuffle order and loss history for seeds ≥ 2**32 and for Generator seeds")
+    check.floor("stores to _rng_seed", n_store, 4)
     check.floor("seed presence tests", n_seed_tests, 3)
     _, rs = repo.func(f"{RNG}:RNGMixin._reset_rng")
     ok = any(isinstance(n, ast.Assign) and any(dotted(t) == "self.rng" for t in n.targets) and unparse(n.value) == "self._rng_seed" for n in ast.walk(rs))
@@ -548,3 +561,4 @@ MANIFEST = {
 }
 MANIFEST["text"] += ' Also: the batcher is built after the reset has re-installed the generator; zero_grad_all / step_schedulers / set_schedulers dispatch to the same models as step_optimizers (R6).'
 MANIFEST["text"] += ' Receivers of the per-model dispatchers are resolved through `for m in (self.a, self.b): m.f()`; a strict subset of the stepped models is a definite verdict.'
+MANIFEST["text"] += " Every store to _rng_seed stores the seed unreduced (a `% 2**32` belongs at torch's manual_seed, not in the attribute the numpy generator is rebuilt from)."
